@@ -64,6 +64,16 @@ def gen_case(g, regime):
         # non-dyadic scale
         s = 0.1 + g.random()
         c["U_f"] = [[v * s for v in row] for row in c["U_f"]]
+    # the type of the input arrays: the law is about their values, not their dtype
+    c["udtype"] = g.choice(["float64", "float64", "float64", "int64", "int8", "float32"])
+    if c["udtype"].startswith("int"):
+        c["U_f"] = [[float(round(v)) for v in row] for row in c["U_f"]]
+    elif c["udtype"] == "float32":
+        c["U_f"] = [[float(np.float32(v)) for v in row] for row in c["U_f"]]
+    # hand-stepped feedback loop where some steps receive a forced feedback value, through the sender's or the
+    # receiver's with_feedback context; the steps after the context use the sender's state again
+    if c["mode"] == "calls" and c["hasFb"] and g.chance(0.5):
+        c["force"] = [g.choice([None, None, "sender", "receiver"]) for _ in range(T)]
     return c
 
 
@@ -98,9 +108,10 @@ def build_node(c):
 def run_impl(c):
     """Run the real library. Returns dict(rows=[[float]], x=[..], s=[..], params=...)"""
     res, sender = build_node(c)
-    U = np.array(c["U_f"], dtype=float).reshape(len(c["U_f"]), c["m"])
+    U = np.array(c["U_f"], dtype=float).reshape(len(c["U_f"]), c["m"]).astype(np.dtype(c.get("udtype", "float64")))
     FB = np.array(c["FB_f"], dtype=float).reshape(len(c["FB_f"]), c["k"])
     x0 = np.array(c["x0_f"], dtype=float).reshape(1, -1)
+    force = c.get("force") or [None] * len(U)
     if sender is not None:
         sender.call(FB[:1])
     res.initialize(U[:1])
@@ -121,9 +132,16 @@ def run_impl(c):
         res.reset(to_state=x0)
         rows = []
         for t in range(len(U)):
-            if sender is not None:
-                sender.call(FB[t:t + 1])
-            rows.append(res.call(U[t:t + 1])[0])
+            if force[t] == "sender":
+                with sender.with_feedback(FB[t:t + 1].copy()):
+                    rows.append(res.call(U[t:t + 1])[0])
+            elif force[t] == "receiver":
+                with res.with_feedback(FB[t:t + 1].copy()):
+                    rows.append(res.call(U[t:t + 1])[0])
+            else:
+                if sender is not None:
+                    sender.call(FB[t:t + 1])
+                rows.append(res.call(U[t:t + 1])[0])
         rows = np.array(rows)
     W = res.W.toarray() if hasattr(res.W, "toarray") else np.asarray(res.W)
     params = dict(W=W, Win=np.asarray(res.Win.toarray() if hasattr(res.Win, "toarray") else res.Win),
@@ -272,6 +290,8 @@ def check_cases(ctx, cases):
         ctx.stat(f"init={c['init']}")
         ctx.stat(f"lr_vec={c['lr_vec']}")
         ctx.stat(f"T={len(c['U_f'])}")
+        ctx.stat(f"input dtype={c.get('udtype', 'float64')}")
+        ctx.stat("forced feedback steps: " + ("none" if not c.get("force") else "+".join(sorted({str(f) for f in c["force"]}))))
         tol = 1e-12 if c["regime"] == "E" else 1e-9
         if r[0] != "ok":
             ctx.violation("well-formed reservoir run raised " + r[1], c, found_input=True, obligation=ob)
@@ -307,7 +327,8 @@ def check_cases(ctx, cases):
 
 def run(ctx):
     ctx.notes["rule"] = ("random reservoirs (units 1-7, input 1-4, feedback 1-3, dense/csr/csc, both equations, "
-                         "scalar/vector lr, bias on/off, feedback on/off, run / successive calls / two runs); "
+                         "scalar/vector lr, bias on/off, feedback on/off, run / successive calls / two runs; float64, float32 and integer input arrays; "
+                         "hand-stepped loops with some steps under the sender's or the receiver's with_feedback context); "
                          "non-trivial = at least 2 steps and a non-zero recurrent matrix; distinct by full case")
     g = ctx.gen
     cases = [gen_case(g, "E") for _ in range(ctx.n(150, 2500))]
